@@ -184,6 +184,7 @@ def dispatch (fn : String) (j : Json) : P Json := do
   | "encodeWire" => encodeWireFn j
   | "recodeWire" => recodeWireFn j
   | "mapper" => mapperFn j
+  | "clientProtocol" => clientProtocolFn j
   | _ => throw s!"unknown fn {fn}"
 
 def handle (line : String) : String :=
